@@ -85,11 +85,38 @@ fn part() -> HistPart<Mon, impl Fn(&crate::ops::Setup) -> Mon + Sync> {
     }
 }
 
+/// The instance also moves onto addresses it knows Down (or not at all): the records of the previous
+/// holder are then "older identities of its own address". Small packets and custom broadcasts make
+/// selections end early (truncated Feed, drained broadcast), which is what leaves state behind in shared buffers.
+fn part_takeover() -> HistPart<Mon, impl Fn(&crate::ops::Setup) -> Mon + Sync> {
+    let mut p = Profile::default();
+    p.old_timers = true;
+    p.self_updates = 1;
+    p.timers_weight = 25;
+    p.api_sends = 25;
+    p.n_addr = 5;
+    p.max_len = 120;
+    p.change_addr = true;
+    p.takeover_inactive_only = true;
+    let mut sp = SetupProfile::default();
+    sp.codecs = vec![CodecKind::Fix, CodecKind::Var];
+    sp.packet = vec![(30, 80), (1400, 1401)];
+    HistPart {
+        name: "histories-with-address-takeover",
+        sp,
+        p,
+        cases_quick: 30_000,
+        cases_thorough: 2_000_000,
+        mk: |s: &crate::ops::Setup| Mon { codec: s.codec, nontrivial: Vec::new(), sends: 0, chooser_with_own_record: 0 },
+    }
+}
+
 pub fn run(ctx: &Ctx, report: &mut Report) -> EvidenceMeta {
     ctx.run_part(&part(), report);
+    ctx.run_part(&part_takeover(), report);
     EvidenceMeta {
         level: "exploration",
-        rule: "proptest-generated single-instance histories (datagrams of every kind from foreign / own-address identities in several generations, update lists echoing the instance's own past identities, issued timers fired in any order and re-fired, renewals, change_identity on the own address, all periodic-task combinations). Every send_to destination is compared with the identity held at the time of the send (identity chain of the call). A case element is non-trivial when a destination was chosen by Foca while its membership state held a record bearing its own address; distinct = (call kind, message kind, #own-address records, generation)."
+        rule: "proptest-generated single-instance histories (datagrams of every kind from foreign / own-address identities in several generations, update lists echoing the instance's own past identities, issued timers fired in any order and re-fired, renewals, change_identity on the own address, all periodic-task combinations; a second part adds change_identity onto other addresses - only ones the instance does not list as active, claiming a live member's address being outside the quantifier - with packets of 30..80 bytes so that Feeds are truncated and selections end early). Every send_to destination is compared with the identity held at the time of the send (identity chain of the call). A case element is non-trivial when a destination was chosen by Foca while its membership state held a record bearing its own address; distinct = (call kind, message kind, #own-address records, generation)."
             .into(),
         assumptions: vec![
             "harness identity: win_addr_conflict is a strict total order per address".into(),
@@ -101,6 +128,7 @@ pub fn run(ctx: &Ctx, report: &mut Report) -> EvidenceMeta {
 pub fn replay(part_name: &str, case: &Value) -> Option<Result<(), Fail>> {
     match part_name {
         "histories" => Some(replay_with(&part(), case)),
+        "histories-with-address-takeover" => Some(replay_with(&part_takeover(), case)),
         _ => None,
     }
 }
